@@ -265,7 +265,7 @@ def recorded_calls(mocker):
 def table_shape(mocker):
     t = getattr(mocker, '_matches', None)
     try:
-        return tuple(sorted((str(ep), tuple(sorted(str(k) for k in v))) for ep, v in t.items()))
+        return tuple(sorted((str(ep), tuple(sorted((str(k), len(l)) for k, l in v.items()))) for ep, v in t.items()))
     except Exception:   # noqa - a refactored mocker simply loses the extra discriminator
         return None
 
@@ -274,7 +274,7 @@ def norm_obs(o):
     return json.loads(json.dumps(o)) if o is not None else None
 
 
-def replay_history(history, passthrough, rec, check_last_only=True):
+def replay_history(history, passthrough, rec, check_last_only=True, probe=True):
     """-> (ref state, canon, violation info | None) after replaying history on sync and async mockers in lock-step"""
     st, cl = {}, {}
     systems = [(k,) + mocker_for(k, passthrough) for k in ('sync', 'async')]
@@ -299,12 +299,36 @@ def replay_history(history, passthrough, rec, check_last_only=True):
                     if norm_obs(sorted(rc.items())) != norm_obs(sorted(cl.items())):
                         bad = ('calls', kind, step, sorted(cl.items()), sorted(rc.items()))
     shapes = tuple(table_shape(m) for _, m, _ in systems)
-    return st, (canon_norm(st), shapes), bad
+    canon = (canon_norm(st), shapes)
+    if bad is None and history and probe:
+        # look-ahead oracle: the answer sequence of every patched method of the endpoint touched by the last operation,
+        # one full rotation plus one call, must be what the reference predicts (this is what makes merging states by
+        # the reference patch table sound: hidden divergences of the real table show up here, in the state that has them)
+        e = history[-1][1]
+        pst, pcl = st, cl
+        kind, mocker, cls = systems[0]
+        for m in sorted(st.get(e, {})):
+            for i in range(len(st[e][m]) + 1):
+                if not pst.get(e, {}).get(m):
+                    break
+                op = ('call', e, m, 'pos')
+                n = 100 + i
+                pst, pcl, want = ref_apply(pst, pcl, op, n, passthrough)
+                got = real_apply(kind, mocker, cls, op, n)
+                rec.transitions += 1
+                if norm_obs(got) != norm_obs(want):
+                    bad = ('lookahead', kind, len(history) - 1, dict(probe=[e, m, i], answer=want), got)
+                    break
+            if bad:
+                break
+    return st, canon, bad
 
 
 def classify(history, bad):
     what, kind, step, want, got = bad
     op = history[step]
+    if what == 'lookahead':
+        return 'C20:after %s the following answers differ from the configured rotation' % op[0]
     if what == 'calls':
         return 'C20:recorded calls differ from the calls made (%s)' % op[0]
     w = want[0] if isinstance(want, tuple) else want
@@ -315,7 +339,7 @@ def classify(history, bad):
 
 
 def bfs(ctx, passthrough):
-    depth = ctx.pick(4, 6)
+    depth = ctx.pick(4, 5)
     W = ctx.workers
     frontier = [()]
     seen = {((), (None, None))}
@@ -375,7 +399,7 @@ def run(ctx):
                 'unpatched method} on 2 endpoints x 2 methods, passthrough off and on, the real PjRpcMocker patching a real sync and a '
                 'real async client in lock-step with the reference model. canonical state = reference patch table (patch numbers '
                 'renamed by first appearance) + shape of the mocker\'s own table (extra discriminator); non-trivial = every explored '
-                'transition (answer and recorded calls compared)' % ctx.pick(4, 6))
+                'transition (answer and recorded calls compared)' % ctx.pick(4, 5))
     ctx.assumptions += ['merging is sound: the future of the mocker depends only on the patch table; the call log only grows and is compared at every step',
                         'an element of a batch whose method has no patch left is answered -32601 (the endpoint decision is taken on arrival)']
     capped = False
